@@ -299,8 +299,19 @@ func runCheck(id, tier, repo, keep string, writeEvidence bool) int {
 	var samples []oblReport
 	var failed []oblReport
 	exit := 0
+	unitFailed := map[*Unit]bool{}
+	for _, o := range all {
+		if !o.ExpectSat && !o.Holds() {
+			unitFailed[o.Unit] = true
+		}
+	}
 	for _, o := range all {
 		if o.ExpectSat {
+			if !o.Holds() && unitFailed[o.Unit] {
+				// a failed obligation of the same unit was assumed after being reported: the
+				// inconsistency is explained by that failure
+				continue
+			}
 			if !o.Holds() {
 				fmt.Printf("ENGINE-ERROR property=%s vacuous: %s is unsatisfiable (%s)\n", id, o.Name, o.Text)
 				exit = 2
